@@ -3,3 +3,7 @@ package main
 func asmRuleR17_3(p *Program, r *Report) {
 	r.Note("R17.3 pending: assembly front end")
 }
+
+func asmRuleR03_5(p *Program, r *Report) {
+	r.Note("R03.5 pending: assembly front end")
+}
